@@ -1,4 +1,4 @@
-"""Translator: torchtree/core/parameter_utils.py:save_parameters  ->  lean/TTGen/SavePlan.lean
+"""Translator: torchtree/core/parameter_utils.py:save_parameters  ->  lean/TTGen/C18_SavePlan.lean
 
 Reads the function's AST and emits a `TT.FS.Prog` (continuation-passing tree of file-system
 operations and `if` tests).  Recognised statement shapes:
@@ -154,10 +154,10 @@ def translate(repo: Path):
         "/-! GENERATED by harness/translators/tr_saveparams.py from\n"
         "    torchtree/core/parameter_utils.py:save_parameters — do not edit.\n"
         f"    {note}\n-/\n"
-        "namespace TTGen.SavePlan\nopen TT.FS\n\n"
+        "namespace TTGen.C18_SavePlan\nopen TT.FS\n\n"
         f"def translatorOk : Bool := {'true' if ok else 'false'}\n\n"
         f"def prog : Prog :=\n  {prog}\n\n"
-        "end TTGen.SavePlan\n"
+        "end TTGen.C18_SavePlan\n"
     )
     return lean, ok, note
 
